@@ -274,12 +274,19 @@ package git
 //@   pure
 //@ func (*Repository).ResolveObject
 //@   pure
+// The exact git command lines (C01: objects are enumerated from the roots on
+// stdin only — no --all/--reflog/--indexed-objects; C03: --date-order is what
+// A-GIT-ORDER is stated for; C09: output order is git's).
 //@ func (*Repository).NewObjectIter
 //@   pure
+//@   call 0 GitCommand("rev-list") assert len(arg_1) == 4 && arg_1[0] == "rev-list" && arg_1[1] == "--objects" && arg_1[2] == "--stdin" && arg_1[3] == "--date-order"
+//@   call 0 GitCommand("cat-file") assert len(arg_1) == 3 && arg_1[0] == "cat-file" && arg_1[1] == "--batch-check" && arg_1[2] == "--buffer"
 //@ func (*Repository).NewBatchObjectIter
 //@   pure
+//@   call 0 GitCommand("cat-file") assert len(arg_1) == 3 && arg_1[0] == "cat-file" && arg_1[1] == "--batch" && arg_1[2] == "--buffer"
 //@ func (*Repository).NewReferenceIter
 //@   pure
+//@   call 0 GitCommand("for-each-ref") assert len(arg_1) == 2 && arg_1[0] == "for-each-ref" && arg_1[1] == "--format=%(objectname) %(objecttype) %(objectsize) %(refname)"
 
 // ---------------------------------------------------------------- C06: last-matching-rule semantics
 // Induction over the option list, done once over the Combine postconditions:
@@ -294,7 +301,10 @@ package git
 //@ property C13: (*Repository).GitCommand (*Repository).IsFull NewRepositoryFromGitDir
 //@ property C17: (*Repository).GitCommand (*Repository).GetConfig (*Repository).GitPath (*Repository).ConfigStringDefault (*Repository).ConfigBoolDefault (*Repository).ConfigIntDefault (*Repository).ResolveObject (*Repository).NewObjectIter (*Repository).NewBatchObjectIter (*Repository).NewReferenceIter
 //@ property C13: structural/exec-command-sites
-//@ property C17: structural/exec-command-sites structural/gitcommand-callers structural/no-write-apis
+//@ property C17: structural/exec-command-sites structural/gitcommand-callers structural/no-write-apis structural/no-map-iteration
+//@ property C01: (*Repository).NewObjectIter (*Repository).NewBatchObjectIter (*Repository).NewReferenceIter
+//@ property C03: (*Repository).NewObjectIter
+//@ property C09: (*Repository).NewObjectIter (*Repository).NewBatchObjectIter structural/no-map-iteration
 
 // oidHexK(o): the content key of the 40-digit hex form of an object id; it is
 // by definition what OID.String returns (hex.EncodeToString is A-STD-CONV).
